@@ -64,6 +64,18 @@ grep -v "^#" "${SELFTEST_INDEX:-$VERIF_DIR/selftest/INDEX.tsv}" | while IFS="$(p
     if ! prepare "$VERIF_DIR/$patch"; then echo "ERROR	$patch" >>"$summary"; continue; fi
     for id in $(echo "$props" | tr ',' ' '); do
         run_check "$id"; rc=$?
+        if [ $rc -eq 0 ] && [ "$id" = C01 ]; then
+            # C01's registered command also runs the same plans on a build with rosu-map's tracing feature (see ./check)
+            if cargo build --release --offline --features tracing --manifest-path "$S/sim/Cargo.toml" --target-dir "$S/target-tracing" >"$S/build2.log" 2>&1; then
+                if [ "$(id -u)" = 0 ] && command -v setpriv >/dev/null 2>&1; then
+                    chmod -R a+rwX "$S" 2>/dev/null
+                    VERIF_REPO="$S/repo" VERIF_DIR="$S/out" setpriv --reuid=65534 --regid=65534 --clear-groups "$S/target-tracing/release/rosu-sim" check "$id" "$TIER" >"$S/run.log" 2>&1; rc=$?
+                else
+                    VERIF_REPO="$S/repo" VERIF_DIR="$S/out" "$S/target-tracing/release/rosu-sim" check "$id" "$TIER" >"$S/run.log" 2>&1; rc=$?
+                fi
+            fi
+            rm -rf "$S/target-tracing"
+        fi
         if [ $rc -eq 1 ] && grep -q "^VIOLATION property=$id " "$S/run.log"; then
             cls=$(grep -m1 '  class=' "$S/run.log" | sed 's/^ *//' | cut -c1-110)
             echo "CAUGHT	$patch	$id	$cls" | tee -a "$summary"
